@@ -187,6 +187,59 @@ pub fn planted(rng: &mut Rng, p: &[u8], n: usize, alpha: &[u8], talpha: &[u8], m
     planted_w(rng, p, n, alpha, talpha, max_edits, 0)
 }
 
+
+/// "Edit budget used up exactly at a block seam": the pattern is  v x c^r | B  where the head
+/// v x c^r fills the first `b` blocks of width `w` exactly (x != c, first symbol of B != c); the
+/// text contains  v* c^(r+1) B  with k-1 edits (kind by `ekind`: 0 substitution, 1 extra text
+/// symbol, 2 missing text symbol) in v*. The head then aligns with cost exactly k ending at two
+/// consecutive text positions (x substituted by c, or x left out), the last row of block b-1
+/// stays at k, rises to k+1 on the first symbol of B - and exactly there the block-based
+/// matcher has to append block b for a hit of distance k whose edits all lie in the upper blocks.
+pub fn seam_case(rng: &mut Rng, w: usize, blocks: usize, b: usize, k: usize, r: usize, ekind: u64, alpha: &[u8]) -> (Vec<u8>, Vec<u8>) {
+    let m = w * (blocks - 1) + 1 + rng.below(w as u64) as usize;
+    let hl = w * b;
+    let c = *rng.pick(alpha);
+    let other = |rng: &mut Rng, not: u8| -> u8 {
+        loop {
+            let y = *rng.pick(alpha);
+            if y != not {
+                return y;
+            }
+        }
+    };
+    let v: Vec<u8> = rng.seq(hl - r - 1, alpha);
+    let x = other(rng, c);
+    let mut p = v.clone();
+    p.push(x);
+    p.extend(vec![c; r]);
+    let b1 = other(rng, c);
+    p.push(b1);
+    while p.len() < m {
+        p.push(*rng.pick(alpha));
+    }
+    let mut vs = v.clone();
+    for e in 0..k.saturating_sub(1) {
+        let j = rng.below(vs.len() as u64) as usize;
+        match (ekind + e as u64) % 3 {
+            0 => vs[j] = other(rng, vs[j]),
+            1 => vs.insert(j, *rng.pick(alpha)),
+            _ => {
+                if vs.len() > 1 {
+                    vs.remove(j);
+                }
+            }
+        }
+    }
+    let pre = rng.below(6) as usize;
+    let mut t: Vec<u8> = rng.seq(pre, alpha);
+    t.extend(vs);
+    t.extend(vec![c; r + 1]);
+    t.extend_from_slice(&p[hl..]);
+    let post = rng.below(5) as usize;
+    t.extend(rng.seq(post, alpha));
+    (p, t)
+}
+
 /// pattern shapes: unary, single odd symbol, periodic, random
 pub fn pattern(rng: &mut Rng, m: usize, alpha: &[u8], shape: u64) -> Vec<u8> {
     match shape % 4 {
